@@ -213,7 +213,7 @@ ALL_OPS = {"append", "import", "remove", "setnow", "gcstep", "drain", "reopen", 
 READS = {"readsync", "read", "get", "head"}
 
 P_CTX = dict(op_w={"register": 5, "append": 8, "import": 5, "remove": 5, "tick": 0.5, "gc": 1, "reopen": 3, "badctx": 1},
-             p_import_reg=0.5, p_import_collide=0.05, n_topics=3,
+             p_import_reg=0.5, p_import_collide=0.05, n_topics=3, w_lookalike=2,
              ttl_w={"-": 3, "forever": 2, "ephemeral": 2, "time": 1, "head": 1})
 P_GENERAL = dict()
 P_TOPICS = dict(op_w={"register": 2, "append": 12, "import": 4, "remove": 4, "tick": 1, "gc": 3, "reopen": 1, "badctx": 0.2},
@@ -750,8 +750,16 @@ def c04_run(which):
         variants = ("kill", "power", "torn1", "torn2", "torn3", "torn2p")
         tot, kinds, states = 0, {}, {}
         samples = []
-        for w in range(n_w):
-            script = crash_workload(random.Random(ctx.rnd.getrandbits(64)), ctx.rnd.randrange(7, 13))
+        scripted = [
+            # the collector's own removals must be durable before anything that depends on them is acknowledged: an explicit
+            # remove of a frame the collector already dropped returns at once - and the frame must stay gone after a power loss
+            [f"append - {S.xh(S.XS_CONTEXT)} - - -", f"append - {S.xh('a')} - - head:1", f"append - {S.xh('a')} - - head:1", "drain",
+             "remove @1", f"append - {S.xh('b')} - - -", f"append @0 {S.xh('b')} - - -"],
+            [f"append - {S.xh(S.XS_CONTEXT)} - - -", f"append @0 {S.xh('a')} - - head:2", f"append @0 {S.xh('a')} - - -",
+             f"append @0 {S.xh('a')} - - head:1", "gcstep", "remove @1", "remove @2", f"import #5 @0 {S.xh('a')} - - -"],
+        ]
+        for w in range(n_w + len(scripted)):
+            script = scripted[w] if w < len(scripted) else crash_workload(random.Random(ctx.rnd.getrandbits(64)), ctx.rnd.randrange(7, 13))
             r = K.run_workload(script, variants=variants)
             if r.get("error"):
                 ctx.violation("crash harness: " + r["error"], dict(engine="K", script=script, theorem_or_correspondence="engine K"), no_input=True)
